@@ -10,8 +10,8 @@
 #include <sys/wait.h>
 #include <unistd.h>
 
-enum { X_INIT = 1000, X_WINDOW, X_CHURN, X_MZP, X_PNG_WRITE, X_PNG_READ, X_JCF_READ, X_FROM_STR, X_DJB_BIG, X_INIT_BIG, X_NEXTRA };
-static const char *XN[] = {"mzd_init", "mzd_init_window", "init_free_churn", "mzp_init_copy", "mzd_to_png", "mzd_from_png", "mzd_from_jcf", "mzd_from_str", "djb_compile_big", "mzd_init_above_threshold"};
+enum { X_INIT = 1000, X_WINDOW, X_CHURN, X_MZP, X_PNG_WRITE, X_PNG_READ, X_JCF_READ, X_FROM_STR, X_DJB_BIG, X_INIT_BIG, X_HDR_SPILL, X_NEXTRA };
+static const char *XN[] = {"mzd_init", "mzd_init_window", "init_free_churn", "mzp_init_copy", "mzd_to_png", "mzd_from_png", "mzd_from_jcf", "mzd_from_str", "djb_compile_big", "mzd_init_above_threshold", "headers_beyond_pool"};
 
 extern void hx_djb_free(void *z);
 
@@ -132,6 +132,20 @@ static void scenario(const mon_args_t *a, int sc, const op_t *op, long fail_at, 
       mzd_free(B);
       mzd_free(C);
     }
+    disarm();
+    break;
+  }
+  case X_HDR_SPILL: {
+    /* more live headers than the pool holds: further headers come from the system allocator one by one */
+    extern int mzd_verif_header_cache_capacity(void);
+    int cap = mzd_verif_header_cache_capacity();
+    if (cap <= 0) cap = 1024; /* header cache compiled out: every header is an allocation anyway */
+    mzd_t *A = mzd_init(8, 130);
+    for (int i = 0; i < cap + 3; i++) mzd_init_window(A, i % 7, 64 * (i % 2), 8, 100 + i % 30);
+    arm(fail_at);
+    for (int i = 0; i < 3; i++) mzd_init_window(A, i, 0, 8, 70 + i);
+    mzd_t *B = mzd_init(3, 70);
+    mzd_write_bit(B, 2, 69, 1);
     disarm();
     break;
   }
